@@ -895,10 +895,13 @@ class Parser:
                         return int(s, 10)
                 except ValueError:
                     if len(s) > 1:
-                        if s.lower()[0:2] == '0x':
-                            return int(s, 16)
-                        elif s.lower()[0:2] == '0b':
-                            return int(s, 2)
+                        try:
+                            if s.lower()[0:2] == '0x':
+                                return int(s, 16)
+                            elif s.lower()[0:2] == '0b':
+                                return int(s, 2)
+                        except ValueError:
+                            pass
                 raise CDefError("invalid constant %r" % (s,))
             elif s[0] == "'" and s[-1] == "'" and (
                     len(s) == 3 or (len(s) == 4 and s[1] == "\\")):
